@@ -171,6 +171,8 @@ f36_S: {svc_S: #U36_S, svc_S: {kind_S: string}, e6_S: 1 | 2 | 3 | 4 | 5 | 6, t_S
 f37_S: {x_S: #D37_S & {a_S: 1, b_S: {c_S: 2}} & matchN(1, [{a_S: int, ...}]),
 	y_S: {p_S: [1, 2, 3], q_S: {r_S: "s"}} & matchIf({p_S: [...int], ...}, {q_S: {...}, ...}, _),
 	w_S: matchN(>0, [{a_S?: int, ...}]) & {a_S: 1, n_S: {m_S: 1}}}`,
+	// number literals with multiplier suffixes, which encoders have to rewrite
+	/*38*/ `f38_S: {limits_S: [4Ki, 1M, 250M, 3Gi, 1.5K, 0x10, 1_000], quota_S: 2Ki, sizes_S: {small_S: [1K, 2K], large_S: [1Mi, 2Mi, 3Ti]}}`,
 }
 
 // program imports only the builtin packages its fragments use, so that the
@@ -205,6 +207,7 @@ var snippetPaths = [][]string{
 	{"a_S", "g_S.h_S", "g_S", "a_S", ""},
 	{"svc_S", "e6_S", "t_S", "svc_S", ""},
 	{"x_S", "y_S", "w_S", "x_S", ""},
+	{"limits_S", "sizes_S", "", "limits_S"},
 }
 
 var opKinds = []string{"lookup", "fields", "fields-all", "walk", "unify", "unify-accept", "fill", "fill-value", "validate", "validate-concrete", "default", "eval",
